@@ -39,6 +39,9 @@ func checkC02(c *ev.Ctx) {
 			return
 		}
 		run := runXZWriter(k)
+		if run.Sink != nil {
+			noteCarry(c, k.Family, run.Sink.Buf)
+		}
 		det := k.desc()
 		inputDetail(det, run.Data)
 		if run.NewErr != nil || run.Panic != nil {
